@@ -1,7 +1,7 @@
 """Running the implementation (tlexport.main.run) and turning captures into the model's input.
 Everything here uses the repository's own reader/Packet classes so that the model starts where DESIGN.md says it does
 (after dpkt's frame parsing); key-log text is parsed by the repo's keylog_reader until Model/Keylog is in use."""
-import contextlib, io, os, sys, tempfile
+import contextlib, io, os, struct, sys, tempfile
 from lib.common import hx, use_repo_in_process
 
 
@@ -81,14 +81,15 @@ class Impl:
                 items.append("D~" + self.secrets_arg(buf.decode("ascii")))
                 continue
             p = self.Packet(buf, ts)
-            tsu = int(round(ts * 1e6))
+            tsu = int(round(float(ts) * 1e6))          # what dpkt's pcapng writer will write for this timestamp
+            tsid = struct.unpack(">Q", struct.pack(">d", float(ts)))[0]   # identity of the float timestamp
             if p.tcp_packet:
                 l4 = p.tcp
-                items.append("~".join(["P", "%x" % tsu, "T", "1" if p.ipv6_packet else "0", hx(p.ip_src), hx(p.ip_dst), hx(p.ethernet_src), hx(p.ethernet_dst),
+                items.append("~".join(["P", "%x.%x" % (tsu, tsid), "T", "1" if p.ipv6_packet else "0", hx(p.ip_src), hx(p.ip_dst), hx(p.ethernet_src), hx(p.ethernet_dst),
                                        "%x" % p.sport, "%x" % p.dport, "%x" % p.seq, hx(p.tls_data), "%x" % (p.ip.nxt if p.ipv6_packet else p.ip.p), hx(bytes(l4)), "%x" % l4.sum]))
             elif p.udp_packet:
                 l4 = p.udp
-                items.append("~".join(["P", "%x" % tsu, "U", "1" if p.ipv6_packet else "0", hx(p.ip_src), hx(p.ip_dst), hx(p.ethernet_src), hx(p.ethernet_dst),
+                items.append("~".join(["P", "%x.%x" % (tsu, tsid), "U", "1" if p.ipv6_packet else "0", hx(p.ip_src), hx(p.ip_dst), hx(p.ethernet_src), hx(p.ethernet_dst),
                                        "%x" % p.sport, "%x" % p.dport, "0", hx(p.tls_data), "%x" % (p.ip.nxt if p.ipv6_packet else p.ip.p), hx(bytes(l4)), "%x" % l4.sum]))
             else:
                 items.append("P~%x~O~0~-~-~-~-~0~0~0~-~0~-~0" % tsu)
